@@ -56,10 +56,12 @@ c.finish(
         "null, booleans, integers, finite reals, names, strings, arrays and dictionaries (no references, no operators), "
         "nested less than 256 deep; %raw% operators are comment lines",
         "inline images inside the guard of inline_rt (ContentSpec.wf_image_full): /W,/H valid, keys are regular bytes "
-        "without '#', no nil values, values nested at most 10 deep and without empty arrays, data at most 4094 bytes, /L "
-        "absent or equal to the data length, no ASCII filter (the proof excludes all ASCII-filter images; the harness only "
-        "those whose data is empty or starts with white space or '%'), and (without /L) no EOL 'EI' delimiter inside the "
-        "data; the three excluded classes are registered findings",
+        "without '#', no nil values, values nested at most 10 deep, data at most 4094 bytes, /L absent or equal to the data "
+        "length, and (without /L) no EOL 'EI' delimiter inside the data (the remaining finding F9); the proof excludes all "
+        "ASCII-filter images, the harness only those whose data starts with white space",
+        "ASCII-filter (ASCIIHexDecode/ASCII85Decode) inline-image data that itself starts with white space is outside the "
+        "domain: ISO 32000 8.9.7 makes white space after ID non-data for these filters, the scanner skips it and the ASCII "
+        "decoders ignore it",
         "values are compared as in C01 (nil entry absent, nil array = null, nil dict = empty dict); H-float as in C01",
         "State: only nesting and the Allowed/Transition table are modelled, not the graphics-state requirements",
     ],
@@ -70,7 +72,7 @@ c.finish(
     ],
     partial=[
         "inline_rt_refuted (F9): without /L, data containing EOL 'EI' delimiter is cut short - witness computed by vm_compute; "
-        "Examples inline_empty_array_instance and inline_ascii_instance show the two other registered findings on the model",
+        "Examples inline_empty_array_instance and inline_ascii_instance show the two former defects F36/F37 as fixed, on the model",
         "balanced: only nesting and the Allowed/Transition table are modelled (theorem table_ok ties the side condition "
         "to the table); the Builder's graphics-state requirements are outside the theorem",
     ],
